@@ -84,6 +84,14 @@ def exec_c10(cfg, devs):
             if i and cfg.get('gap'):
                 s.sleep(cfg['gap'], 'user.gap')
             issue(name)
+        if cfg.get('user2'):
+            # a second user thread sends its request at an arbitrary moment (lazy: any scheduling point, one deviation)
+            def second():
+                s.lazy_point('user2.send', timeout=cfg['user2_at'])
+                if cf.link is not None:
+                    issue(cfg['user2'])
+            s.spawn(None, second, name='user2')
+            s.sleep(1e-6, 'let.user2.park')
         if cfg.get('inject'):
             def inj():
                 s.lazy_point('env.inject', timeout=cfg['inject_at'])
@@ -291,6 +299,9 @@ def configs(quick):
         _cfg('reopen:tie', 'a', close_at=0.3, reopen_after=0.1, reqs2='d'),
         _cfg('reopen:1.0', 'a', timeout=1.0, close_at=0.5, reopen_after=0.2, reqs2='d'),
         _cfg('gap:ab', 'ab', gap=0.1),
+        _cfg('user2:close+reopen', 'a', close_at=0.3, reopen_after=0.05, reqs2='d', user2='b', user2_at=0.32),
+        _cfg('user2:error+reopen', 'a', close_at=0.3, reopen_after=0.05, reqs2='d', user2='b', user2_at=0.32, by_error=True),
+        _cfg('user2:plain', 'a', user2='b', user2_at=0.3),
         _cfg('single:0.2:handoff', 'a', policy='handoff'),
         _cfg('prefix:ab:handoff', 'ab', policy='handoff'),
         _cfg('reopen:tie:eager', 'a', close_at=0.3, reopen_after=0.1, reqs2='d', policy='eager'),
